@@ -7,12 +7,13 @@ V = Path(__file__).resolve().parent.parent
 claims = json.loads((V / "tools" / "claims.json").read_text())
 for q in sorted((V / "tools" / "claims.d").glob("*.json")):
     claims.update(json.loads(q.read_text()))
+enabled = set((V / "tools" / "enabled.txt").read_text().split())
 props = [json.loads(l) for l in (V / "properties.jsonl").read_text().splitlines() if l.strip()]
 checks, na = [], []
 for p in props:
     pid = p["id"]
     c = claims.get(pid)
-    if c and c.get("claimed"):
+    if c and c.get("claimed") and pid in enabled:
         checks.append({
             "property_id": pid,
             "quick_cmd": f"./check {pid} --tier quick",
@@ -25,7 +26,7 @@ for p in props:
             "technique": c["technique"],
         })
     else:
-        na.append({"property_id": pid, "reason": (c or {}).get("reason", "check not built yet in this round; no claim is made")})
+        na.append({"property_id": pid, "reason": (c or {}).get("reason") or "check still being built / not yet passing on /repo in this round; no claim is made yet"})
 m = {
     "version": 1,
     "setup_cmd": "./setup.sh",
